@@ -590,14 +590,51 @@ Fixpoint wf_sv (w : wf float) : sv :=
 Definition res_sv {A} (f : A -> sv) (r : res A) : sv :=
   match r with Ok a => SL [SZ 0; f a] | Err e => SL [SZ (err_code e)] end.
 
+(** ** Source expressions: what the user passes to the constructors.  A
+    duration may be any int-castable number ([_cast_check(int, duration)]:
+    Python [int()] truncates toward zero; a non-integer value only triggers a
+    warning).  [elab] performs that cast; [None] stands for the TypeError
+    raised when the cast fails (NaN). *)
+Inductive rawdur := RI (z : Z) | RF (f : float).
+Definition cast_dur (r : rawdur) : option Z :=
+  match r with RI z => Some z | RF f => f_trunc f end.
+
+Inductive wsrc :=
+| SConst (d : rawdur) (v : float)
+| SRamp (d : rawdur) (a b : float)
+| SCustom (l : list float)
+| SComp (ws : list wsrc)
+| SWin (k : wkind) (d : rawdur) (area beta : float)
+| SInterp (d : rawdur) (vals : list float) (times : option (list float)).
+
+Fixpoint elab (s : wsrc) : option (wf float) :=
+  match s with
+  | SConst d v => option_map (fun z => WConst z v) (cast_dur d)
+  | SRamp d a b => option_map (fun z => WRamp z a b) (cast_dur d)
+  | SCustom l => Some (WCustom l)
+  | SComp ws =>
+      option_map WComp
+        ((fix go (l : list wsrc) : option (list (wf float)) :=
+            match l with
+            | [] => Some []
+            | x :: t =>
+                match elab x, go t with
+                | Some w, Some r => Some (w :: r)
+                | _, _ => None
+                end
+            end) ws)
+  | SWin k d area beta => option_map (fun z => WWin k z area beta) (cast_dur d)
+  | SInterp d vals times => option_map (fun z => WInterp z vals times) (cast_dur d)
+  end.
+
 (** Queries / operations on one waveform *)
 Inductive wop :=
 | OSamples | ODur | OIntegral
 | OIndex (i : Z)
 | OSlice (start stop step : option Z)
 | OMul (k : float) | ONeg | ODiv (k : float)
-| OChDur (d : Z)
-| OEq (w2 : wf float)
+| OChDur (d : rawdur)
+| OEq (w2 : wsrc)
 | ODataPts.
 
 Definition wf_full (E : env float) (w : wf float) : res sv :=
@@ -613,9 +650,17 @@ Definition run_wop (E : env float) (w : wf float) (o : wop) : sv :=
   | OMul k => res_sv (fun x => x) (wf_full E (wmul FN k w))
   | ONeg => res_sv (fun x => x) (wf_full E (wneg FN w))
   | ODiv k => res_sv (fun x => x) (rbind (wdiv FN k w) (wf_full E))
-  | OChDur d => res_sv (fun x => x) (rbind (change_duration FN E w d) (wf_full E))
-  | OEq w2 =>
-      res_sv (fun b : bool => SB b) (rbind (validate FN E w2) (fun _ => wf_eq FN E w w2))
+  | OChDur r =>
+      match cast_dur r with
+      | None => SL [SZ 2]
+      | Some d => res_sv (fun x => x) (rbind (change_duration FN E w d) (wf_full E))
+      end
+  | OEq s2 =>
+      match elab s2 with
+      | None => SL [SZ 2]
+      | Some w2 =>
+          res_sv (fun b : bool => SB b) (rbind (validate FN E w2) (fun _ => wf_eq FN E w w2))
+      end
   | ODataPts =>
       match w with
       | WInterp d vals times =>
@@ -628,35 +673,43 @@ Definition run_wop (E : env float) (w : wf float) (o : wop) : sv :=
   end.
 
 (** a waveform case: construction outcome, then every query *)
-Definition run_wf_case (E : env float) (w : wf float) (ops : list wop) : sv :=
-  match validate FN E w with
-  | Err e => SL [SZ (err_code e)]
-  | Ok _ => SL (SZ 0 :: map (run_wop E w) ops)
+Definition run_wf_case (E : env float) (s : wsrc) (ops : list wop) : sv :=
+  match elab s with
+  | None => SL [SZ 2]
+  | Some w =>
+      match validate FN E w with
+      | Err e => SL [SZ (err_code e)]
+      | Ok _ => SL (SZ 0 :: map (run_wop E w) ops)
+      end
   end.
 
 Definition pulse_sv (E : env float) (p : pulse (R := float)) : sv :=
   SL [wf_sv (p_amp p); wf_sv (p_det p); fsv (p_phase p); fsv (p_post p);
       res_sv fsvl (samples FN E (p_det p))].
 
-Definition run_pulse_case (E : env float) (amp det : wf float) (phase post : float) : sv :=
-  match validate FN E amp with
-  | Err e => SL [SZ (err_code e)]
-  | Ok _ =>
-      match validate FN E det with
+Definition with_two (E : env float) (s1 s2 : wsrc) (k : wf float -> wf float -> sv) : sv :=
+  match elab s1 with
+  | None => SL [SZ 2]
+  | Some w1 =>
+      match validate FN E w1 with
       | Err e => SL [SZ (err_code e)]
-      | Ok _ => res_sv (pulse_sv E) (pulse_new FN E amp det phase post)
+      | Ok _ =>
+          match elab s2 with
+          | None => SL [SZ 2]
+          | Some w2 =>
+              match validate FN E w2 with
+              | Err e => SL [SZ (err_code e)]
+              | Ok _ => k w1 w2
+              end
+          end
       end
   end.
 
-Definition run_arb_case (E : env float) (amp ph : wf float) (post : float) : sv :=
-  match validate FN E amp with
-  | Err e => SL [SZ (err_code e)]
-  | Ok _ =>
-      match validate FN E ph with
-      | Err e => SL [SZ (err_code e)]
-      | Ok _ => res_sv (pulse_sv E) (pulse_arbitrary_phase FN E amp ph post)
-      end
-  end.
+Definition run_pulse_case (E : env float) (amp det : wsrc) (phase post : float) : sv :=
+  with_two E amp det (fun a d => res_sv (pulse_sv E) (pulse_new FN E a d phase post)).
+
+Definition run_arb_case (E : env float) (amp ph : wsrc) (post : float) : sv :=
+  with_two E amp ph (fun a p => res_sv (pulse_sv E) (pulse_arbitrary_phase FN E a p post)).
 
 Definition run_bmv_case (E : env float) (maxv area : float) : sv :=
   res_sv (fun x => x) (rbind (bm_from_max_val FN E 4000 maxv area) (wf_full E)).
